@@ -58,7 +58,8 @@ def P(name, typ=None, default=NODEF):
 def C(name, params=(), kind='plain', bases=(), abstract=False, extra=False,
       pyname=None, yattrs=(), noargs_exc=False, kwonly=(),
       members=(), rejects=(), recog=None, sav=None, swe=None,
-      init_raises=False, attrs_private=False, ydefaults=()):
+      init_raises=False, attrs_private=False, ydefaults=(), raisesif=(),
+      strmixin=False):
     return {
         'name': name, 'pyname': pyname or name, 'kind': kind,
         'bases': list(bases),
@@ -71,6 +72,10 @@ def C(name, params=(), kind='plain', bases=(), abstract=False, extra=False,
         'hassav': sav is not None, 'sav': sav or ['none'],
         'hasswe': swe is not None, 'swe': swe or ['none'],
         'initraises': init_raises,
+        # [param name, abstract value]: __init__ refuses exactly that value
+        'raisesif': list(raisesif),
+        'strmixin': strmixin,
+        'ydefaults': list(ydefaults),
         'yattrs': list(yattrs), 'noargsexc': noargs_exc,
         'kwonly': list(kwonly),
     }
@@ -155,7 +160,7 @@ def models():
     da = C('Da', [P('my_attr', INT), P('o_p', STR, ['str', 'd'])])
     ms.append(M('dashed', [da], [K('Da')],
                 keys=['my_attr', 'my-attr', 'o_p', 'o-p'],
-                scalars=[S_42, S_ABC], tn=5))
+                scalars=[S_42, S_ABC], tn=5, an=5, aliask=('s',), cyc=False))
     ds = C('Ds', [P('my_attr', INT), P('o_p', STR, ['str', 'd'])],
            sav=['dashes_to_unders'])
     ms.append(M('dashed_sav', [ds], [K('Ds')],
@@ -198,7 +203,7 @@ def models():
            sav=['rename', 'tt', 't'])
     ms.append(M('hooks', [ba, mi, le], [K('Ba'), L(K('Ba'))],
                 keys=['p', 'pp', 'q', 't', 'tt'], scalars=[S_42, S_ABC],
-                rtypes=[], tn=5))
+                mtags=('map', '!Le', '!Ba'), rtypes=[], tn=5))
     # ---- adversarial hooks: permissive recogniser + corrupting savorize ----
     pr = C('Pr', [P('a', INT)], recog=['permissive'])
     cs = C('Cs', [P('a', INT), P('b', STR, ['str', 'd'])],
@@ -388,6 +393,55 @@ def models():
     ms.append(M('underscore', [um, hk], [K('Um')], keys=['a', '_meta', 'c'],
                 scalars=[S_42], mtags=('map', '!Hk'), qn=7, tn=7, rootk='m',
                 nodup=True, rtypes=[]))
+    # ---- round 4: a subclass whose _yatiml_extra parameter has a default -------
+    bx = C('Bx', [P('n', STR)])
+    sx = C('Sx', [P('n', STR), P('r', INT)], bases=['Bx'], extra=True)
+    ms.append(M('extradef', [bx, sx], [K('Bx'), L(K('Bx'))],
+                keys=['n', 'r', 'q'], scalars=[S_ABC, S_42], qn=5, tn=6,
+                rtypes=[]))
+    # ---- an abstract class between two concrete ones ----------------------------
+    en = C('En', [P('n', INT)])
+    co = C('Co', [P('n', INT)], bases=['En'], abstract=True)
+    fo = C('Fo', [P('n', INT), P('r', INT)], bases=['Co'])
+    ms.append(M('absmid', [en, co, fo], [K('En'), L(K('En')), U(K('En'), STR)],
+                keys=['n', 'r'], scalars=[S_42],
+                mtags=('map', '!Fo', '!Co', '!En'), qn=5, tn=6, rtypes=[]))
+    # ---- both spellings of a key in a class with _yatiml_extra ------------------
+    de = C('De', [P('my_attr', INT)], extra=True)
+    ms.append(M('dashextra', [de], [K('De')], keys=['my_attr', 'my-attr'],
+                scalars=[S_42, S_ABC], qn=5, tn=5, rootk='m', rtypes=[]))
+    # ---- objects nested in objects of the same class (through the base) ---------
+    tn_ = C('Tn', [P('v', INT)])
+    tr = C('Tr', [P('v', INT), P('c', Opt(K('Tn')), ['null'])], bases=['Tn'],
+           raisesif=['v', ['int', '7']])
+    ms.append(M('tree', [tn_, tr], [K('Tn')], keys=['v', 'c'],
+                scalars=[S_42, S_7], qn=7, tn=7, rootk='m', nodup=True,
+                qtags=(), rtypes=[]))
+    tb = C('Tb', [])
+    tx = C('Tx', [P('l', Opt(K('Tb')), ['null']), P('r', Opt(K('Tb')), ['null'])],
+           bases=['Tb'], extra=True)
+    ms.append(M('treex', [tb, tx], [K('Tb')], keys=['l', 'r', 'q'],
+                scalars=[S_42], qn=9, tn=9, rootk='m', nodup=True, qtags=(),
+                rtypes=[]))
+    # ---- a savorize hook that fails on a nested object ---------------------------
+    rs2 = C('Rs2', [P('a', INT)], sav=['raise_seasoning'])
+    hr = C('Hr', [P('a', INT), P('r', U(K('Rs2'), INT))])
+    ms.append(M('savnest', [rs2, hr], [K('Hr')], keys=['a', 'r'],
+                scalars=[S_42], qn=7, tn=7, rootk='m', nodup=True, qtags=(),
+                rtypes=[]))
+    # ---- a savorize hook that fetches an optional attribute ----------------------
+    sn = C('Sn', [P('a', INT), P('b', INT, ['int', '0'])], sav=['need_attr', 'b'])
+    hn = C('Hn', [P('s', K('Sn'))])
+    ms.append(M('savopt', [sn, hn], [K('Hn')], keys=['s', 'a', 'b'],
+                scalars=[S_42], qn=7, tn=7, rootk='m', nodup=True, qtags=(),
+                rtypes=[]))
+    # ---- an index whose key attribute is not a plain str -------------------------
+    u3 = C('U3', kind='userstring')
+    it = C('It', [P('price', INT), P('name', K('U3'), ['strlike', 'U3', 'dflt'])])
+    hx = C('Hx', [P('items', D(K('It')))], sav=['map_to_index', 'items', 'name'])
+    ms.append(M('index', [u3, it, hx], [K('Hx')],
+                keys=['items', 'abc', 'price', 'name'], scalars=[S_42, S_ABC],
+                qn=7, tn=7, rootk='m', nodup=True, qtags=(), rtypes=[]))
     # ---- long and unusual strings as attributes of an object -------------------
     ls = C('Ls', [P('d', STR), P('e', STR, ['str', 'abc'])])
     ms.append(M('longstr', [ls], [K('Ls'), L(STR), D(STR)], keys=['d', 'e'],
